@@ -122,23 +122,29 @@ Example C18_nonvacuous :
 Proof. vm_compute. repeat split; discriminate. Qed.
 
 (* ====================================================================================== *)
-(** NO PUBLIC CALL PANICS, as a theorem about the model (audit X5).
+(** NO PUBLIC CALL PANICS, as a theorem about the model (audit X5).  /repo HEAD f8fa07f.
     [Sys.step] totalises the partial operations of src/multi.rs / src/draw_target.rs, so it has
     no panic outcome by construction.  model/SysPanic.v therefore defines the panic sites
-    EXPLICITLY: [psite] (20 sites, file:line each) and [step_panics W H fails s now o] = the
-    first `unwrap()` / `vec[idx]` / `assert*!` / unchecked usize `+`,`-` the Rust code hits when it
-    executes call [o] in state [s] ([None] = the call returns), written as guards over the same
-    state components [step] reads, in evaluation order, including inside MultiState::{draw,
-    clear, suspend, mark_zombie, insert, remove_idx, draw_state} and DrawState::draw_to_term.
-    Hypotheses of the theorems (all on the state in which the call is made):
+    EXPLICITLY: [psite] (19 sites of the current code, file:line each, + 1 historical) and
+    [step_panics W H fails s now o] = the first `unwrap()` / `vec[idx]` / `assert*!` / unchecked
+    usize `+`,`-` the Rust code hits when it executes call [o] in state [s] ([None] = the call
+    returns), written as guards over the same state components [step] reads, in evaluation
+    order, including inside MultiState::{draw, clear, suspend, mark_zombie, insert, remove_idx,
+    draw_state} and DrawState::draw_to_term.  The row arithmetic of the draw_to_term guards is
+    the RUST one ([wrapped_height_rs]: usize::MAX rows for a non-empty line at width 0,
+    saturating sums), so the theorems hold for EVERY width W, 0 included.
+    Hypotheses (all on the state in which the call is made):
       [MultiSpec.init_ok] / [MultiSpec.hist_ok] - the state is reached from an initial
         configuration by calls through live handles, insert_before/after naming members;
-      [1 <= W] - the clause is REFUTED at W = 0 ([C18_no_panic_zero_width_refuted]);
       [H < U16] - the type of TermLike::height();
       [counters_fit s] - every last_line_count (+ zombie_lines_count) leaves room for two more
-        screens below usize::MAX (they grow by at most 2 * H per call; 2^46 calls are needed);
-      [frame_rows W m < USIZE] - the row count of the frame composed from the members fits in
-        a usize (it is at most the number of bytes of the lines, which are in memory).
+        screens below usize::MAX; DERIVED in the _fresh variants from freshly created targets and
+        fewer than 2^46 calls ([C18_counters_grow]).
+    Caveat at W = 0: the COUNTER VALUES of Sys.v's states are computed with [Text.wrapped_height]
+    (1 row per line at W = 0; Rust: usize::MAX for a non-empty line) - the guards are proved silent
+    for ANY counter values within [counters_fit], but the derivation of [counters_fit] in the
+    _fresh variants is about Sys.v's counters (the Rust counters obey the same `n' <= H + n` per
+    draw: [dt_count_rs_le], not threaded through a W = 0-faithful state machine).
     Not covered (docs/C18.md): lock poisoning after a panic inside a user closure / TermLike
     impl, allocation failure, the sites of format_state / limiters / estimator (C05 C09 C10 C13
     C14 C16), a second MultiProgress (`assert!(Arc::ptr_eq)`), the move_cursor branch. *)
@@ -146,13 +152,12 @@ From IndModel Require Import SysPanic.
 From IndProofs Require Import SysPanicProofs.
 
 (** (1) every unwrap / index / assert / arithmetic site of the drawing system is unreachable:
-    for every state reachable from an initial configuration by a valid history - under ANY
-    fault oracle [fails] and any timestamps - and every next call allowed by [op_ok], executed
-    under ANY fault oracle [fails'] *)
-Theorem C18_no_panic_reachable : forall W H, 1 <= W -> H < U16 -> forall fails fails' s0 ops now o,
+    for every W, every state reachable from an initial configuration by a valid history - under
+    ANY fault oracle [fails] and any timestamps - and every next call allowed by [op_ok],
+    executed under ANY fault oracle [fails'] *)
+Theorem C18_no_panic_reachable : forall W H, H < U16 -> forall fails fails' s0 ops now o,
   MultiSpec.init_ok s0 -> MultiSpec.hist_ok W H fails s0 ops ->
   counters_fit (MultiSpec.run W H fails s0 ops) ->
-  frame_rows W (s_mp (MultiSpec.run W H fails s0 ops)) < USIZE ->
   MultiSpec.op_ok (MultiSpec.run W H fails s0 ops) o = true ->
   step_panics W H fails' (MultiSpec.run W H fails s0 ops) now o = None.
 Proof. exact no_panic_reachable. Qed.
@@ -162,10 +167,9 @@ Print Assumptions C18_no_panic_reachable.
     cannot be used) a call panics iff it is one of the enumerated misuses ([misuse_site]:
     insert_before / insert_after relative to a bar that is not a member), and then at exactly
     that `index().unwrap()`; equivalently [step_panics = None] iff [op_ok] *)
-Theorem C18_misuse_panics_exactly : forall W H, 1 <= W -> H < U16 -> forall fails fails' s0 ops now o,
+Theorem C18_misuse_panics_exactly : forall W H, H < U16 -> forall fails fails' s0 ops now o,
   MultiSpec.init_ok s0 -> MultiSpec.hist_ok W H fails s0 ops ->
   counters_fit (MultiSpec.run W H fails s0 ops) ->
-  frame_rows W (s_mp (MultiSpec.run W H fails s0 ops)) < USIZE ->
   handles_alive (MultiSpec.run W H fails s0 ops) o = true ->
   step_panics W H fails' (MultiSpec.run W H fails s0 ops) now o
     = misuse_site (MultiSpec.run W H fails s0 ops) o
@@ -183,50 +187,68 @@ Print Assumptions C18_misuse_enumerated.
 (** (3) whole histories under an arbitrary fault oracle: no call of a valid history reaches a
     site ([run_panics] = index and site of the first panic).  The counters the guards read
     (last_line_count, zombie_lines_count) are exactly what faults change (C18_structure), so the
-    hypothesis [hist_fits] is stated on the states of THIS (faulty) run. *)
-Theorem C18_no_panic_under_faults : forall W H, 1 <= W -> H < U16 -> forall fails s0 ops,
+    hypothesis [hist_fits] ([counters_fit] at every visited state) is stated on THIS (faulty) run. *)
+Theorem C18_no_panic_under_faults : forall W H, H < U16 -> forall fails s0 ops,
   MultiSpec.init_ok s0 -> MultiSpec.hist_ok W H fails s0 ops -> hist_fits W H fails s0 ops ->
   run_panics W H fails s0 ops = None.
 Proof. exact run_no_panic_init. Qed.
 Print Assumptions C18_no_panic_under_faults.
 
 (** one call, from the invariants (MInv + Refines: what C02_order_reachable establishes) *)
-Theorem C18_no_panic_step : forall W H fails, 1 <= W -> H < U16 -> forall s a now o,
-  MInv s -> Refines s a -> counters_fit s -> frame_rows W (s_mp s) < USIZE ->
+Theorem C18_no_panic_step : forall W H fails, H < U16 -> forall s a now o,
+  MInv s -> Refines s a -> counters_fit s ->
   MultiSpec.op_ok s o = true -> step_panics W H fails s now o = None.
 Proof. exact step_np. Qed.
 Print Assumptions C18_no_panic_step.
 
-(** FINDING D31 (candidate): the clause is FALSE on a zero-width terminal.  History [np_ops]
-    (add a b c d; tick each; finish and drop b, c - flagged; finish and drop a - reaped): the
-    ordering is [b; c], both zombies with the non-empty frame "x10"; at W = 0
-    LineType::wrapped_height is usize::MAX for each, and the zombie scan of the NEXT draw
-    (tick of d, or MultiProgress::println) evaluates `adjust += line_count` twice
-    (src/multi.rs:324 -> src/draw_target.rs:675 `self.0 += rhs.0`): "attempt to add with
-    overflow" in builds with overflow checks; the panic poisons the MultiState lock, every later
-    call on any member panics.  Every hypothesis of C18_no_panic_reachable but [1 <= W] holds;
-    the same history at W = 1 reaches no site.  Replayed on the implementation by c18.rs
-    (class zero-width-zombie-scan-add-overflow). *)
-Theorem C18_no_panic_zero_width_refuted :
-  MultiSpec.init_ok np_sys /\ MultiSpec.hist_ok 0 10 np_nofail np_sys np_ops /\ hist_fits 0 10 np_nofail np_sys np_ops
-  /\ run_panics 0 10 np_nofail np_sys np_ops = None
-  /\ let s := MultiSpec.run 0 10 np_nofail np_sys np_ops in
-     counters_fit s /\ frame_rows 0 (s_mp s) < USIZE
-     /\ MultiSpec.op_ok s (OTick 3) = true /\ MultiSpec.op_ok s (OMPrintln [104]) = true
-     /\ step_panics 0 10 np_nofail s 6 (OTick 3) = Some P_draw_adjust_add
-     /\ step_panics 0 10 np_nofail s 6 (OMPrintln [104]) = Some P_draw_adjust_add
-     /\ step_panics 1 10 np_nofail (MultiSpec.run 1 10 np_nofail np_sys np_ops) 6 (OTick 3) = None.
-Proof. exact zero_width_refuted. Qed.
-Print Assumptions C18_no_panic_zero_width_refuted.
+(** the row arithmetic of the guards is the model's wherever the model is faithful: for W >= 1 and
+    a frame whose row count does not saturate, the count the guard tests at draw_target.rs:630 is
+    the last_line_count [Draw.draw_to_term] returns; and for EVERY width a draw reports at most
+    one screen more than it was given *)
+Theorem C18_guard_rows_are_the_models : forall ls n al below W H,
+  1 <= W -> H < USIZE_MAX -> visual_line_count ls W <= USIZE_MAX ->
+  dt_count_rs ls n al W H = snd (fst (draw_to_term ls n al below W H)).
+Proof. exact dt_count_rs_model. Qed.
+Print Assumptions C18_guard_rows_are_the_models.
 
-(** Non-vacuity: a valid 21-call history on a 7x4 terminal with failing TermLike calls (call 7,
-    calls 30..39) that goes through insert_after, insert_before, insert_from_back, a re-add,
-    println and suspend of a member, suspend / println / clear of the MultiProgress, remove,
-    Bottom alignment, a drop behind the head (flag), a drop at the head (mark_zombie reaps), the
-    draw that reaps the flagged bar: every hypothesis holds at every state, no site is reached *)
+Theorem C18_draw_count_bounded_every_width : forall ls n al W H,
+  H < USIZE_MAX -> dt_count_rs ls n al W H <= H + n.
+Proof. exact dt_count_rs_le. Qed.
+Print Assumptions C18_draw_count_bounded_every_width.
+
+(** REGRESSION - finding D31, FIXED by /repo f8fa07f.  [step_panics_pre_f8fa07f] = the guards of
+    the OLD code (module SysPanic.Pre_f8fa07f: identical but for the zombie scan, where
+    MultiState::draw summed the rows of the head zombies with the unchecked `adjust +=
+    line_count`, src/multi.rs:324 -> src/draw_target.rs:675).  History [np_ops] (add a b c d;
+    tick each; finish and drop b, c - flagged; finish and drop a - reaped) leaves the ordering
+    [b; c], both zombies with the frame "x10"; at W = 0 each counts usize::MAX rows, and the next
+    draw (tick of d at index 14, or MultiProgress::println) hit [P_draw_adjust_add] ("attempt to
+    add with overflow", poisoning the MultiState lock).  The guards of the CURRENT code
+    (`saturating_add`) are silent on the same history; at W = 1 the old ones were too.  c18.rs
+    replays the history on the implementation at W = 0 and reports a panic as class
+    zero-width-zombie-scan-add-overflow. *)
+Theorem C18_zero_width_overflow_regression :
+  MultiSpec.init_ok np_sys /\ MultiSpec.hist_ok 0 10 np_nofail np_sys (np_ops ++ [(6, OTick 3)])
+  /\ hist_fits 0 10 np_nofail np_sys (np_ops ++ [(6, OTick 3)])
+  /\ run_panics_pre_f8fa07f 0 10 np_nofail np_sys (np_ops ++ [(6, OTick 3)]) = Some (14%nat, P_draw_adjust_add)
+  /\ step_panics_pre_f8fa07f 0 10 np_nofail (MultiSpec.run 0 10 np_nofail np_sys np_ops) 6 (OMPrintln [104]) = Some P_draw_adjust_add
+  /\ run_panics_pre_f8fa07f 1 10 np_nofail np_sys (np_ops ++ [(6, OTick 3)]) = None
+  /\ run_panics 0 10 np_nofail np_sys (np_ops ++ [(6, OTick 3)]) = None
+  /\ step_panics 0 10 np_nofail (MultiSpec.run 0 10 np_nofail np_sys np_ops) 6 (OMPrintln [104]) = None.
+Proof. exact zero_width_regression. Qed.
+Print Assumptions C18_zero_width_overflow_regression.
+
+(** Non-vacuity: a valid 21-call history with failing TermLike calls (call 7, calls 30..39) that
+    goes through insert_after, insert_before, insert_from_back, a re-add, println and suspend of a
+    member, suspend / println / clear of the MultiProgress, remove, Bottom alignment, a drop behind
+    the head (flag), a drop at the head (mark_zombie reaps), the draw that reaps the flagged bar:
+    every hypothesis holds at every state and no site is reached - on a 7x4 terminal AND on a
+    zero-width one *)
 Example C18_no_panic_nonvacuous :
   MultiSpec.init_ok np_sys /\ MultiSpec.hist_ok 7 4 np_fails2 np_sys np_ops2 /\ hist_fits 7 4 np_fails2 np_sys np_ops2
   /\ run_panics 7 4 np_fails2 np_sys np_ops2 = None
+  /\ MultiSpec.hist_ok 0 4 np_fails2 np_sys np_ops2 /\ hist_fits 0 4 np_fails2 np_sys np_ops2
+  /\ run_panics 0 4 np_fails2 np_sys np_ops2 = None
   /\ map (fun k => ms_order (s_mp (MultiSpec.run 7 4 np_fails2 np_sys (firstn k np_ops2)))) [4; 13; 16; 17; 19; 21]%nat
      = [[2; 0; 3; 1]; [2; 0; 1]; [2; 0; 1]; [0; 1]; [1]; []]
   /\ s_calls (MultiSpec.run 7 4 np_fails2 np_sys np_ops2) <> s_calls (MultiSpec.run 7 4 np_nofail np_sys np_ops2).
@@ -254,24 +276,22 @@ Theorem C18_counters_grow : forall W H fails s0 ops, counters_zero s0 ->
 Proof. exact counters_grow. Qed.
 Print Assumptions C18_counters_grow.
 
-(** (1) again, with [counters_fit] DERIVED: fresh targets and fewer than 2^46 calls so far *)
-Theorem C18_no_panic_reachable_fresh : forall W H, 1 <= W -> H < U16 -> forall fails fails' s0 ops now o,
+(** (1) again, with [counters_fit] DERIVED: fresh targets and fewer than 2^46 calls so far -
+    no hypothesis left but the type of height() *)
+Theorem C18_no_panic_reachable_fresh : forall W H, H < U16 -> forall fails fails' s0 ops now o,
   MultiSpec.init_ok s0 -> counters_zero s0 -> MultiSpec.hist_ok W H fails s0 ops ->
   N.of_nat (length ops) < CALLS_MAX ->
-  frame_rows W (s_mp (MultiSpec.run W H fails s0 ops)) < USIZE ->
   MultiSpec.op_ok (MultiSpec.run W H fails s0 ops) o = true ->
   step_panics W H fails' (MultiSpec.run W H fails s0 ops) now o = None.
 Proof. exact no_panic_fresh. Qed.
 Print Assumptions C18_no_panic_reachable_fresh.
 
-(** (3) again: whole histories under an arbitrary fault oracle, only the heap bound assumed *)
-Theorem C18_no_panic_under_faults_fresh : forall W H, 1 <= W -> H < U16 -> forall fails s0 ops,
+(** (3) again: whole histories under an arbitrary fault oracle *)
+Theorem C18_no_panic_under_faults_fresh : forall W H, H < U16 -> forall fails s0 ops,
   MultiSpec.init_ok s0 -> counters_zero s0 -> MultiSpec.hist_ok W H fails s0 ops ->
-  N.of_nat (length ops) < CALLS_MAX -> hist_rows W H fails s0 ops ->
-  run_panics W H fails s0 ops = None.
+  N.of_nat (length ops) < CALLS_MAX -> run_panics W H fails s0 ops = None.
 Proof. exact run_no_panic_fresh. Qed.
 Print Assumptions C18_no_panic_under_faults_fresh.
 
-Example C18_fresh_nonvacuous :
-  counters_zero np_sys /\ N.of_nat (length np_ops2) < CALLS_MAX /\ hist_rows 7 4 np_fails2 np_sys np_ops2.
+Example C18_fresh_nonvacuous : counters_zero np_sys /\ N.of_nat (length np_ops2) < CALLS_MAX.
 Proof. exact fresh_example. Qed.
